@@ -3,7 +3,7 @@ CONSTANTS
   Clients <- MC1Clients
   Reqs <- MC1Reqs
   Bg = "bg"
-  Handoff = FALSE
+  Handoff = TRUE
 INVARIANT RecvMutex
 INVARIANT CondMutex
 INVARIANT DispatchedOnce
@@ -12,5 +12,5 @@ INVARIANT Completed
 INVARIANT NoLostWakeup
 INVARIANT NoHang
 INVARIANT WillBeWoken
-INVARIANT OnlyKnownStalls
+INVARIANT NoStall
 PROPERTY Termination
